@@ -222,6 +222,7 @@ pub type Offset = usize;''')
         sk.add('read::unit', ui)
 
     populate_abbrev(ctx, sk)
+    populate_entries(ctx, sk, un)
     return sk
 
 
@@ -246,7 +247,7 @@ use crate::constants;
 use crate::read::{Error, Reader, ReaderOffset, Result};
 use crate::read::reader_clone;
 use crate::vspec::*;
-use crate::read::unit::{ASpec, aspec_at, aspec_size, aspec_end_marker, aspecs, aspecs_size};""")
+use crate::read::unit::{ASpec, aspec_at, aspec_size, aspec_end_marker, aspecs, aspecs_size, lemma_aspecs_shift};""")
     sk.add('read::abbrev', ABBREV_PRELUDE, label='abbrev-prelude')
     O, F = 'old(input).rv()', 'final(input).rv()'
     FRAME = f'[C01:frame] within({O}, {F})'
@@ -354,7 +355,9 @@ mod deref_stub {
         f'[C02:abbrev-end] res matches Ok(None) ==> {O}.len == 0 || ({O}.uleb(0) == 0 && adv({O}, {F}, {O}.leb_len(0)))',
         f'[C02:abbrev-decl] res matches Ok(Some(a)) ==> a.wf() && a.g_code() == {O}.uleb(0) && a.g_code() != 0 && a.g_tag() == {O}.uleb({P1}) && a.g_tag() != 0 '
         f'&& a.g_children() == {O}.at({P2}) && a.g_children() <= 1 && a.g_specs() == aspecs({O}, {P2} + 1) && adv({O}, {F}, ({P2} + 1 + aspecs_size({O}, {P2} + 1)) as nat)',
-        FRAME, f'[C01:progress] res matches Ok(Some(_)) ==> {F}.len < {O}.len'])
+        FRAME, f'[C01:progress] res matches Ok(Some(_)) ==> {F}.len < {O}.len'],
+        before=[('let attributes = Self::parse_attributes(input)?;', 'let ghost verif_w = input.rv();'),
+                ('let abbrev = Abbreviation::new(', f'proof {{ lemma_aspecs_shift({O}, verif_w, 0); }}')])
     sk.add('read::abbrev', abi)
 
     # ---- Abbreviations
@@ -393,6 +396,138 @@ mod deref_stub {
         FRAME],
         loops={0: f'invariant abbrevs.inv(), within({O}, input.rv()),\n decreases input.rv().len'})
     sk.add('read::abbrev', abs_)
+    return sk
+
+
+DBOUND = 'isize::MIN + {0}.g_input().len <= {0}.g_depth() && {0}.g_depth() + {0}.g_input().len <= isize::MAX'
+
+
+def populate_entries(ctx, sk, un):
+    op = Source('read/op.rs', ctx)
+    sk.mods['read::unit']['uses'] += """
+use std::vec::Vec;
+use crate::common::{DebugAddrBase, DebugAddrIndex, DebugLineOffset, DebugLineStrOffset, DebugLocListsBase, DebugLocListsIndex, DebugMacinfoOffset,
+    DebugMacroOffset, DebugRngListsBase, DebugRngListsIndex, DebugStrOffset, DebugStrOffsetsBase, DebugStrOffsetsIndex, LocationListsOffset, RawRangeListsOffset};
+use crate::read::{Abbreviation, Abbreviations, AttributeSpecification};"""
+    sk.add('read::unit', op.item(r'^pub struct Expression<R: Reader>\(').clean(rejrec=['R']))
+    sk.add('read::unit', un.item(r'^pub enum AttributeValue<R, Offset').clean(rejrec=['R', 'Offset']))
+    sk.add('read::unit', un.item(r'^pub struct Attribute<R: Reader> \{').clean(rejrec=['R']))
+    ai = un.item(r'^impl<R: Reader> Attribute<R> \{', label='Attribute')
+    ai.keep_only(['name', 'form', 'raw_value', 'value'])
+    ai.extbody(['value'])       # the 600-line normalisation belongs to batch `attrs` (C03); only its existence is needed here
+    ai.clean()
+    ai.own(['C01', 'C02'])
+    ai.insert_members("""    pub closed spec fn g_name(&self) -> u16 { self.name.0 }
+    pub closed spec fn g_form(&self) -> u16 { self.form.0 }""")
+    ai.splice('name', ret='res', ensures=['res.0 == self.g_name()'])
+    ai.splice('form', ret='res', ensures=['res.0 == self.g_form()'])
+    sk.add('read::unit', ai)
+    # parse_attribute / skip_attributes belong to batch `attrs` (C03): contract-only stubs, frame + the name/form copy
+    pa = un.item(r'^pub\(crate\) fn parse_attribute<R: Reader>\(', label='parse_attribute')
+    pa.extbody(['parse_attribute'])
+    pa.clean()
+    pa.splice('parse_attribute', ret='res', ensures=[
+        'within(old(input).rv(), final(input).rv())',
+        'res matches Ok(a) ==> a.g_name() == spec.sp().name && a.g_form() == spec.sp().form'])
+    sk.add('read::unit', pa)
+    sa = un.item(r'^pub\(crate\) fn skip_attributes<R: Reader>\(', label='skip_attributes')
+    sa.extbody(['skip_attributes'])
+    sa.clean()
+    sa.splice('skip_attributes', ret='res', ensures=['within(old(input).rv(), final(input).rv())'])
+    sk.add('read::unit', sa)
+
+    # ---------------------------------------------------------------- DebuggingInformationEntry
+    sk.add('read::unit', un.item(r'^pub struct DebuggingInformationEntry<R, Offset').clean(rejrec=['R', 'Offset']))
+    de = un.item(r'^impl<R, Offset> DebuggingInformationEntry<R, Offset>', label='DebuggingInformationEntry')
+    de.keep_only(['new', 'null', 'is_null', 'set_null', 'depth', 'offset', 'tag', 'has_children', 'attrs', 'attr', 'attr_value', 'sibling'])
+    de.extbody(['attr'])        # `self.attrs.iter().find(|attr| ..)`: iterator adapter
+    offset_usize(de)
+    de.clean()
+    de.own(['C01', 'C02'])
+    de.splice('new', ret='res', ensures=['res.tag == tag && res.has_children == has_children && res.attrs == attrs && res.offset == offset && res.depth == 0'])
+    de.splice('null', ret='res', ensures=['[C20:null-entry] res.tag.0 == 0 && !res.has_children && res.attrs@.len() == 0 && res.offset.0 == 0 && res.depth == 0'])
+    de.splice('is_null', ret='res', ensures=['[C02:die-accessor] res == (self.tag.0 == 0)'])
+    de.splice('set_null', ensures=[
+        '[C20:null-reset] final(self).tag.0 == 0 && !final(self).has_children && final(self).attrs@.len() == 0',
+        '[C20:null-reset] final(self).offset == old(self).offset && final(self).depth == old(self).depth'])
+    de.splice('depth', ret='res', ensures=['[C02:die-accessor] res == self.depth'])
+    de.splice('offset', ret='res', ensures=['[C02:die-accessor] res == self.offset'])
+    de.splice('tag', ret='res', ensures=['[C02:die-accessor] res == self.tag'])
+    de.splice('has_children', ret='res', ensures=['[C02:die-accessor] res == self.has_children'])
+    de.splice('attrs', ret='res', ensures=['[C02:die-accessor] res@ == self.attrs@'])
+    de.splice('sibling', ret='res', ensures=['[C02:sibling-forward] res matches Some(o) ==> o.0 > self.offset.0'])
+    sk.add('read::unit', de)
+
+    # ---------------------------------------------------------------- EntriesRaw
+    sk.add('read::unit', un.item(r'^pub struct EntriesRaw<\'abbrev, R>').clean(rejrec=['R']))
+    er = un.item(r"^impl<'abbrev, R: Reader> EntriesRaw<'abbrev, R> \{", label='EntriesRaw')
+    er.custom('R-CLONE', 'self.input.clone()', 'reader_clone(&self.input)')
+    er.clean()
+    er.own(['C01', 'C02'])
+    er.insert_members("""    pub closed spec fn g_input(&self) -> RView { self.input.rv() }
+    pub closed spec fn g_encoding(&self) -> Encoding { self.encoding }
+    pub closed spec fn g_abbrevs(&self) -> Abbreviations { *self.abbreviations }
+    pub closed spec fn g_end(&self) -> nat { self.end_offset.0 as nat }
+    pub closed spec fn g_depth(&self) -> int { self.depth as int }
+    /// unit offset of the next byte to be read: end_offset - input.len
+    pub open spec fn pos(&self) -> int { self.g_end() - self.g_input().len }
+    /// invariant: the offset bookkeeping cannot underflow, the abbreviation table satisfies its representation invariant and the depth
+    /// counter (which changes by at most one per byte read) cannot leave the isize range
+    pub open spec fn inv(&self) -> bool {
+        &&& self.g_input().len <= self.g_end()
+        &&& self.g_abbrevs().inv()
+        &&& isize::MIN + self.g_input().len <= self.g_depth() && self.g_depth() + self.g_input().len <= isize::MAX
+    }
+    /// everything except input and depth
+    pub open spec fn same_unit(&self, o: &Self) -> bool {
+        self.g_end() == o.g_end() && self.g_abbrevs() == o.g_abbrevs() && self.g_encoding() == o.g_encoding()
+    }""")
+    OS, FS = 'old(self)', 'final(self)'
+    OI, FI = 'old(self).g_input()', 'final(self).g_input()'
+    CODE = f'{OI}.uleb(0)'
+    er.splice('new', ret='res', requires=['abbreviations.inv()', 'input.rv().len <= isize::MAX', 'offset.0 + input.rv().len <= usize::MAX'], ensures=[
+        '[C02:raw-new] res.inv() && res.g_input() == input.rv() && res.g_encoding() == encoding && res.g_abbrevs() == *abbreviations && res.g_depth() == 0 && res.pos() == offset.0'])
+    er.splice('empty', ensures=[f'{FI}.len == 0 && {FI}.root == {OI}.root && {FI}.be == {OI}.be && {FS}.same_unit({OS}) && {FS}.g_depth() == {OS}.g_depth()'])
+    er.splice('is_empty', ret='res', ensures=['[C02:raw-is-empty] res == (self.g_input().len == 0)'])
+    er.splice('seek_forward', ret='res', requires=[f'{OS}.g_input().len <= {OS}.g_end()'], canary=True, ensures=[
+        f'[C02:seek-forward] res ==> offset.0 >= {OS}.pos() && adv({OI}, {FI}, (offset.0 - {OS}.pos()) as nat) && {FS}.g_depth() == depth && {FS}.pos() == offset.0',
+        f'[C02:seek-untouched] !res ==> {FI} == {OI} && {FS}.g_depth() == {OS}.g_depth()',
+        f'[C02:seek-inside-unit] res <==> {OS}.pos() <= offset.0 <= {OS}.g_end()',
+        f'[C02:seek-untouched] {FS}.same_unit({OS})'])
+    er.splice('next_offset', ret='res', requires=['self.g_input().len <= self.g_end()'], ensures=['[C02:next-offset] res.0 == self.pos()'], canary=True)
+    er.splice('next_depth', ret='res', ensures=['[C02:next-depth] res == self.g_depth()'])
+    er.splice('read_abbreviation', ret='res', requires=[f'[C02:raw-inv] {OS}.inv()'], canary=True, ensures=[
+        f'[C02:raw-inv] {FS}.inv() && {FS}.same_unit({OS})',
+        f'[C02:depth-null] res matches Ok(None) ==> {CODE} == 0 && {FS}.g_depth() == {OS}.g_depth() - 1 && adv({OI}, {FI}, {OI}.leb_len(0))',
+        f'[C02:abbrev-for-code] res matches Ok(Some(a)) ==> {CODE} != 0 && {OS}.g_abbrevs().view().contains_key({CODE} as u64) && *a == {OS}.g_abbrevs().view()[{CODE} as u64] && a.g_code() == {CODE} && a.wf() && adv({OI}, {FI}, {OI}.leb_len(0))',
+        f'[C02:depth-children] res matches Ok(Some(a)) ==> {FS}.g_depth() == {OS}.g_depth() + (if a.g_children() == 0x01 {{ 1int }} else {{ 0int }})',
+        f'[C02:depth-err] res is Err ==> {FS}.g_depth() == {OS}.g_depth()',
+        f'[C01:frame] within({OI}, {FI})',
+        f'[C01:progress] res is Ok ==> {FI}.len < {OI}.len'])
+    FR = f'[C01:frame] within({OI}, {FI}) && {FS}.same_unit({OS}) && {FS}.g_depth() == {OS}.g_depth()'
+    er.splice('read_attribute', ret='res', ensures=[FR, 'res matches Ok(a) ==> a.g_name() == spec.sp().name && a.g_form() == spec.sp().form'])
+    er.splice('read_attribute_inline', ret='res', ensures=[FR, 'res matches Ok(a) ==> a.g_name() == spec.sp().name && a.g_form() == spec.sp().form'])
+    er.splice('read_attributes', ret='res', ensures=[
+        FR,
+        '[C20:attrs-cleared][C02:entry-attrs] res is Ok ==> final(attrs)@.len() == specs@.len() && forall|i: int| 0 <= i < specs@.len() ==> '
+        '(#[trigger] final(attrs)@[i]).g_name() == specs@[i].sp().name && final(attrs)@[i].g_form() == specs@[i].sp().form'],
+        loops={0: f'invariant within({OI}, self.g_input()), self.same_unit({OS}), self.g_depth() == {OS}.g_depth(), attrs@.len() == verif_idx, '
+                  'forall|i: int| 0 <= i < verif_idx ==> (#[trigger] attrs@[i]).g_name() == specs@[i].sp().name && attrs@[i].g_form() == specs@[i].sp().form'})
+    er.splice('skip_attributes', ret='res', ensures=[FR])
+    ABV = f'{OS}.g_abbrevs().view()[{CODE} as u64]'
+    er.splice('read_entry', ret='res', requires=[f'[C02:raw-inv] {OS}.inv()'], canary=True, ensures=[
+        f'[C02:raw-inv] {FS}.inv() && {FS}.same_unit({OS})',
+        f'[C02:entry-position] res is Ok ==> final(entry).offset.0 == {OS}.pos() && final(entry).depth == {OS}.g_depth()',
+        f'[C02:entry-null][C20:entry-reuse] res matches Ok(false) ==> {CODE} == 0 && final(entry).tag.0 == 0 && !final(entry).has_children && final(entry).attrs@.len() == 0 '
+        f'&& {FS}.g_depth() == {OS}.g_depth() - 1 && adv({OI}, {FI}, {OI}.leb_len(0))',
+        f'[C02:entry-from-abbrev][C20:entry-reuse] res matches Ok(true) ==> {CODE} != 0 && {OS}.g_abbrevs().view().contains_key({CODE} as u64) '
+        f'&& final(entry).tag.0 == {ABV}.g_tag() && final(entry).has_children == ({ABV}.g_children() == 0x01) '
+        f'&& final(entry).attrs@.len() == {ABV}.g_attrs().len() '
+        f'&& (forall|i: int| 0 <= i < {ABV}.g_attrs().len() ==> (#[trigger] final(entry).attrs@[i]).g_name() == {ABV}.g_attrs()[i].sp().name && final(entry).attrs@[i].g_form() == {ABV}.g_attrs()[i].sp().form)',
+        f'[C02:depth-children] res matches Ok(true) ==> {FS}.g_depth() == {OS}.g_depth() + (if final(entry).has_children {{ 1int }} else {{ 0int }})',
+        f'[C01:frame] within({OI}, {FI})',
+        f'[C01:progress] res is Ok ==> {FI}.len < {OI}.len'])
+    sk.add('read::unit', er)
     return sk
 
 
